@@ -10,6 +10,8 @@ mod c18;
 mod c14;
 mod c06;
 mod c04;
+mod c13;
+mod c05;
 
 fn main() {
     common::install_panic_hook();
@@ -27,6 +29,8 @@ fn main() {
         "sampling" | "f32ops" => c06::run(&args),
         "sender" => c04::run(&args, false),
         "sender_async" => c04::run(&args, true),
+        "group" => c13::run(&args),
+        "reject" => c05::run(&args),
         s => {
             eprintln!("unknown stream {s}");
             std::process::exit(2);
